@@ -31,7 +31,7 @@ def plan(ctx):
                                                                      "for-else-126", "try-64", "names-256", "consts-257", "cells-255", "locals-256", "unused", "dup", "nested", "match", "with-paren")))
             depth, vfiles = 3, 150
         else:
-            cases = P.corpus_cases(ctx, v, n_files=150, n_w3=300, modes=20, max_file_bytes=30000, w1_max_bytes=60000, max_w4_bytes=12000)
+            cases = P.corpus_cases(ctx, v, n_files=100, n_w3=200, modes=10, max_file_bytes=20000, w1_max_bytes=40000, max_w4_bytes=6000)
             depth, vfiles = 4, 3000
         shards.extend(P.split(ctx, v, cases, k, "C06:", extra={"depth": depth, "nvariants": 6}))
     return shards
@@ -111,9 +111,12 @@ def run(shard):
         size = sum(len(c.co_code) for c, _d in H.iter_code(code))
         rng = H.rng_for(shard.get("seed", 0), "c06", id_)
         small = 2500 if shard.get("tier") == "quick" else 8000
-        if size < small:
+        if size < 2500:
             walk(base, nf, nf_hash, nf_canon, "", depth, "")
             H.feature("tree_depth:%d" % depth)
+        elif size < small:
+            walk(base, nf, nf_hash, nf_canon, "", 3, "")
+            H.feature("tree_depth:3")
         elif size < 12 * small:
             walk(base, nf, nf_hash, nf_canon, "", 2, "")
             H.feature("tree_depth:2")
